@@ -1119,6 +1119,132 @@ def color_source(prog: Program) -> RuleResult:
         raise AnalysisError(f"COLOR-SOURCE: only {n} colour reads found in layout.py")
     return res
 
+
+# ---------------------------------------------------------------------------
+# chain of virtual loss nodes
+
+
+def loss_chain(prog: Program) -> RuleResult:
+    res = RuleResult(
+        "LOSS-CHAIN",
+        "in _add_losses each new virtual node takes as its only child the node created just before it (the real "
+        "gene for the first one): the `left` and `right` entries of the branch read the same loop-carried "
+        "variable, which is re-bound to the new node at the end of the iteration - so every level of a multi-"
+        "level loss points at an anchor that exists in the species just below",
+    )
+    mod = prog.module(LAYOUT)
+    fn = prog.func(LAYOUT, "_add_losses")
+    loops = [n for n in fn.body if isinstance(n, ast.While)]
+    if len(loops) != 1:
+        raise AnalysisError("_add_losses: expected one while loop")
+    loop = loops[0]
+    dicts = [d for d in ast.walk(loop) if isinstance(d, ast.Dict) and any(isinstance(k, ast.Constant) and k.value == "left" for k in d.keys)]
+    if len(dicts) != 1:
+        raise AnalysisError("_add_losses: branch literal with 'left'/'right' not found")
+    entries = {k.value: v for k, v in zip(dicts[0].keys, dicts[0].values) if isinstance(k, ast.Constant)}
+    construct = f"{LAYOUT}:_add_losses/child-link"
+    sides = {}
+    for side in ("left", "right"):
+        v = entries.get(side)
+        if not (isinstance(v, ast.IfExp) and isinstance(v.orelse, ast.Constant) and v.orelse.value is None and isinstance(v.body, ast.Name)):
+            raise AnalysisError(f"_add_losses: `{side}` entry `{short(v)}` is not `<child> if <side test> else None`")
+        sides[side] = v.body.id
+    new_nodes = [
+        st.targets[0].id for st in loop.body
+        if isinstance(st, ast.Assign) and isinstance(st.targets[0], ast.Name) and isinstance(st.value, ast.Call) and (dotted(st.value.func) or "").startswith("Pseudo")
+    ]
+    if len(new_nodes) != 1:
+        raise AnalysisError("_add_losses: creation of the virtual node not found")
+    cur = new_nodes[0]
+    carried = [
+        st.targets[0].id for st in loop.body
+        if isinstance(st, ast.Assign) and isinstance(st.targets[0], ast.Name) and isinstance(st.value, ast.Name) and st.value.id == cur
+    ]
+    problems = []
+    if sides["left"] != sides["right"]:
+        problems.append(f"the left entry links `{sides['left']}` but the right entry links `{sides['right']}`")
+    for side, name in sides.items():
+        if name not in carried:
+            problems.append(f"the {side} entry links `{name}`, which is not re-bound to the new node `{cur}` at the end of the iteration (carried: {carried or 'none'}): from the second level on it still denotes an older node")
+    rets = [r for r in walk_no_nested(fn) if isinstance(r, ast.Return) and r.value is not None]
+    if not rets or any(dotted(r.value) not in carried for r in rets):
+        problems.append("the function does not return the last node of the chain")
+    if problems:
+        res.fail(construct, "; ".join(problems), mod, dicts[0])
+    else:
+        res.ok(construct, f"left/right link `{sides['left']}`, re-bound to `{cur}` each iteration and returned")
+    return res
+
+
+# ---------------------------------------------------------------------------
+# colour inheritance and traversal order
+
+
+def color_inherit(prog: Program) -> RuleResult:
+    res = RuleResult(
+        "COLOR-INHERIT",
+        "colour propagation gives an uncoloured node the colour of its nearest coloured ancestor: either each "
+        "node reads its parent (`.up`) in a pre-order walk (the parent is already resolved), or each coloured "
+        "node paints its still-uncoloured descendants in a post-order walk (inner colours are painted before "
+        "outer ones). The opposite pairing lets an outer colour override a nested one or stop at depth one.",
+    )
+    mod = prog.module(LAYOUT)
+    fn = prog.func(LAYOUT, "_compute_branches")
+    sites = [
+        c for c in walk_no_nested(fn)
+        if isinstance(c, ast.Call) and isinstance(c.func, ast.Attribute) and c.func.attr == "add_feature"
+        and c.args and isinstance(c.args[0], ast.Constant) and c.args[0].value == "color"
+    ]
+    if not sites:
+        raise AnalysisError("_compute_branches: colour propagation (add_feature('color', ...)) not found")
+    for idx, call in enumerate(sites):
+        construct = f"{LAYOUT}:_compute_branches/colour-propagation#{idx}"
+        loops = [l for l in loops_around(fn, call) if isinstance(l, ast.For)]
+        outer = next((l for l in loops if isinstance(l.iter, ast.Call) and isinstance(l.iter.func, ast.Attribute) and l.iter.func.attr == "traverse"), None)
+        if outer is None:
+            raise AnalysisError(f"{construct}: enclosing tree traversal not found")
+        strat = kwarg(outer.iter, "strategy", 0)
+        order = strat.value if isinstance(strat, ast.Constant) else "levelorder"
+        target = dotted(call.func.value)
+        source = call.args[1] if len(call.args) > 1 else None
+        walker = dotted(outer.target)
+        src_base = source.value if isinstance(source, ast.Attribute) and source.attr == "color" else None
+        if target == walker and isinstance(src_base, ast.Attribute) and src_base.attr == "up" and dotted(src_base.value) == walker:
+            # reads the parent
+            if order in ("preorder", "levelorder"):
+                res.ok(construct, f"node reads its parent, {order} walk")
+            else:
+                res.fail(construct, f"each node copies its parent's colour in a {order} walk: the parent has not been resolved yet, the colour reaches only one level", mod, call)
+        elif src_base is not None and dotted(src_base) == walker and target != walker:
+            # the walker paints other nodes: which ones?
+            inner = next((l for l in loops if l is not outer and dotted(l.target) == target), None)
+            it = inner.iter if inner is not None else None
+            over_desc = isinstance(it, ast.Call) and isinstance(it.func, ast.Attribute) and dotted(it.func.value) == walker and it.func.attr in ("iter_descendants", "get_descendants", "traverse")
+            over_children = (isinstance(it, ast.Attribute) and it.attr == "children" and dotted(it.value) == walker) or (
+                isinstance(it, ast.Call) and isinstance(it.func, ast.Attribute) and it.func.attr == "get_children" and dotted(it.func.value) == walker
+            )
+            if over_desc:
+                if order == "postorder":
+                    res.ok(construct, "coloured node paints its uncoloured descendants, post-order walk")
+                else:
+                    res.fail(
+                        construct,
+                        f"each coloured node paints all its uncoloured descendants in a {order} walk: an outer colour is "
+                        "painted first and the subtree of a nested coloured node keeps the outer colour",
+                        mod,
+                        call,
+                    )
+            elif over_children:
+                if order in ("preorder", "levelorder"):
+                    res.ok(construct, f"coloured node paints its uncoloured children, {order} walk")
+                else:
+                    res.fail(construct, f"children are painted in a {order} walk: the colour reaches only one level", mod, call)
+            else:
+                raise AnalysisError(f"{construct}: painted set `{short(it)}` not recognised")
+        else:
+            raise AnalysisError(f"{construct}: `{short(call)}` is not a recognised propagation step")
+    return res
+
 # ---------------------------------------------------------------------------
 # escaping
 
@@ -1395,6 +1521,8 @@ def _dominated_by_assignment(loop: ast.For, use: ast.AST, name: str) -> bool:
 
 
 RULES = {
+    "LOSS-CHAIN": loss_chain,
+    "COLOR-INHERIT": color_inherit,
     "COLOR-SOURCE": color_source,
     "KIND-EXHAUSTIVE": kind_exhaustive,
     "KIND-AGREE": kind_agree,
